@@ -499,6 +499,51 @@ def cli_gate(ck):
                 nsites += 1
                 ck.ob('PROV-model-messages', module.loc(n), isinstance(n.op, ast.Add), '{}: the formatting map of this application is added to the entry (`{}`)'.format(qual, u(n)[:70]),
                       key='PROV-model-messages|{}|{}'.format(module.rel, qual))
+                # .. and what is added contains this application's own map: a list display (`[match]`, `[correspondence]`) in the added value, or in the
+                # value of the local that is added (`fmt_args = fmt_args + [match]`), or an append to that local.  A block-level message is stored with an
+                # empty list: the map of the application is what makes it replayed at all
+                loop = module.enclosing(n, ast.For)
+                scope = list(ast.walk(loop)) if loop is not None else list(walk_local(fn))
+                names = {x.id for x in ast.walk(n.value) if isinstance(x, ast.Name)}
+                own = any(isinstance(x, ast.List) and x.elts for x in ast.walk(n.value)) or \
+                    any(isinstance(a_, ast.Assign) and len(a_.targets) == 1 and isinstance(a_.targets[0], ast.Name) and a_.targets[0].id in names and
+                        any(isinstance(x, ast.List) and x.elts for x in ast.walk(a_.value)) for a_ in scope) or \
+                    any(isinstance(c_, ast.Call) and call_attr(c_) == 'append' and isinstance(c_.func.value, ast.Name) and c_.func.value.id in names for c_ in scope)
+                ck.ob('PROV-model-messages', module.loc(n), own, '{}: what is added for a message includes the map of this very application (a message stored without maps is '
+                      'replayed once per application only because of it)'.format(qual), key='PROV-model-messages|{}|{}|own-map'.format(module.rel, qual))
+        # the stored lists are not edited through another name either (`for entries in x.log_entries.values(): entries[e] = ..`)
+        level1, level2 = set(), set()
+        for l_ in [x for x in walk_local(fn) if isinstance(x, ast.For)]:
+            it = u(l_.iter)
+            tnames = [t.id for t in ast.walk(l_.target) if isinstance(t, ast.Name)]
+            if '.log_entries.values()' in it and tnames:
+                level1.add(tnames[-1])
+            elif '.log_entries.items()' in it and len(tnames) == 2:
+                level1.add(tnames[1])
+        for l_ in [x for x in walk_local(fn) if isinstance(x, ast.For)]:
+            it = u(l_.iter)
+            tnames = [t.id for t in ast.walk(l_.target) if isinstance(t, ast.Name)]
+            for a_ in level1:
+                if it == a_ + '.values()' and tnames:
+                    level2.add(tnames[-1])
+                elif it == a_ + '.items()' and len(tnames) == 2:
+                    level2.add(tnames[1])
+        # a name that is rebound inside the function (`fmt_args = fmt_args + [match]`) no longer names the stored list
+        level2 = {a_ for a_ in level2 if not any(isinstance(x, ast.Assign) and any(u(t) == a_ for t in x.targets) for x in walk_local(fn))}
+        for n in walk_local(fn):
+            edit = None
+            if isinstance(n, (ast.Assign, ast.AugAssign, ast.Delete)):
+                tg = n.targets if not isinstance(n, ast.AugAssign) else [n.target]
+                for t in tg:
+                    if isinstance(t, ast.Subscript) and isinstance(t.value, ast.Name) and t.value.id in level1 | level2:
+                        edit = u(n)[:70]
+            elif isinstance(n, ast.Call) and isinstance(n.func, ast.Attribute) and isinstance(n.func.value, ast.Name) and \
+                    ((n.func.value.id in level1 and n.func.attr in ('pop', 'popitem', 'clear', 'update', 'setdefault')) or
+                     (n.func.value.id in level2 and n.func.attr in ('pop', 'remove', 'clear', 'sort', 'reverse', 'insert'))):
+                edit = u(n)[:70]
+            if edit is not None and module.rel not in (CLI, 'vermouth/ffinput.py'):
+                ck.ob('PROV-model-messages', module.loc(n), False, '{}: `{}` edits the stored messages of a molecule through another name: the maps recorded by earlier applications '
+                      'are what gets logged and counted before the gate'.format(qual, edit), key='PROV-model-messages|{}|{}|edit'.format(module.rel, qual))
     ck.expect_count('PROV-model-messages sites', nsites, 3)
     # who finalises
     sites = []
